@@ -460,16 +460,6 @@ pub fn gen_c16<W: Write>(out: &mut W, thorough: bool, seed: u64) {
             writeln!(out, "f64json {}", hfa(&mut r)).unwrap();
         }
         writeln!(out, "reset").unwrap();
-        // keep the name table across resets
-        if i + 1 < n {
-            for name in ["tgt", "ldn", "fed", "nyc", "bus", "all", "tyo"] {
-                let (mask, hols) = crate::dates::table_of(name);
-                write!(out, "defname {} {} {}", name, mask, hols.len()).unwrap();
-                for h in &hols {
-                    write!(out, " {}", h).unwrap();
-                }
-                writeln!(out).unwrap();
-            }
-        }
+        // (`reset` keeps the tables of built-in calendars on both sides)
     }
 }
